@@ -55,6 +55,9 @@ type Ctl struct {
 	adopt  []adoptRule
 	// Foreign: if set, events of goroutines that are not logical threads are logged with Tid -1
 	Foreign bool
+	// Keep: if set, only events for which it returns true are logged (parking and thread states
+	// are not affected); used to keep busy-waiting threads from flooding the log
+	Keep func(site string) bool
 	free    bool // free-running: nobody parks any more (teardown)
 }
 
@@ -117,7 +120,9 @@ func (c *Ctl) hook(site string, gid int64, args []int64) {
 		c.mu.Unlock()
 		return
 	}
-	c.log = append(c.log, Ev{t.tid, site, append([]int64{}, args...)})
+	if c.Keep == nil || c.Keep(site) {
+		c.log = append(c.log, Ev{t.tid, site, append([]int64{}, args...)})
+	}
 	if k, ok := c.Wake[site]; ok && len(args) > 0 {
 		for _, u := range c.thr {
 			if u.state == Sleeping && u.sleepKind == k && u.sleepOn == args[0] {
@@ -260,4 +265,39 @@ func (c *Ctl) LogLen() int {
 	c.mu.Lock()
 	defer c.mu.Unlock()
 	return len(c.log)
+}
+
+// WaitThread waits until thread tid is not running (parked, asleep, finished) or the timeout
+// expires, and returns its state. Unlike Settle it ignores all other threads, so independent
+// scenarios can share one controller.
+func (c *Ctl) WaitThread(tid int, timeout time.Duration) int {
+	deadline := time.Now().Add(timeout)
+	for {
+		c.mu.Lock()
+		t := c.thr[tid]
+		st := -1
+		if t != nil {
+			st = t.state
+		}
+		c.mu.Unlock()
+		if st != Running && st != -1 {
+			return st
+		}
+		if time.Now().After(deadline) {
+			return st
+		}
+		time.Sleep(20 * time.Microsecond)
+	}
+}
+
+// StepThread releases thread tid if it is parked and waits for that thread only.
+func (c *Ctl) StepThread(tid int, timeout time.Duration) int {
+	c.mu.Lock()
+	t := c.thr[tid]
+	if t != nil && t.state == Parked {
+		t.state = Running
+		t.resume <- struct{}{}
+	}
+	c.mu.Unlock()
+	return c.WaitThread(tid, timeout)
 }
